@@ -529,6 +529,11 @@ def u_get_cell_size(ctx):
                     out.append((None, s2))
                     continue
                 s2.ghost["queried"] = True
+                # the query may fail (termios.error is an OSError) or be interrupted; nothing here catches that
+                for exc in ("KeyboardInterrupt", "OSError"):
+                    s3 = e.fork(s2)
+                    s3.ghost["query_raised"] = exc
+                    e.raise_(ExcVal(exc), s3)
                 if resp_kind == "none":
                     out.append((None, s2))
                 else:
@@ -591,6 +596,17 @@ def u_get_cell_size(ctx):
         eng.methods[("monlock", "__enter__")], eng.methods[("monlock", "__exit__")] = enter, exit_
         outs = run_function(eng, fn, st)
         for kind, val, s in outs:
+            if kind == "raise" and s.ghost.get("query_raised") == getattr(val, "cls", None):
+                # a call that fails while it queries has computed nothing: the entry it leaves is the one it found (or none at all),
+                # never a half-written one that a later call at this terminal size would serve as if it were fresh
+                old_cache, old = s.ghost["base"]
+                c = s.H(s.H(u)["_cell_size_cache"])
+                eng.oblige("failed-query:cache-left-as-found-or-discarded(no-half-written-entry)", s,
+                           And(len(c) == 4, Or(And(*[Eq(a, b) for a, b in zip(c, old_cache)]), And(Eq(c[0], 0), Eq(c[1], 0))),
+                               to_z3(s.H(u)["_swap_win_size"]) == to_z3(old["_swap_win_size"]),
+                               to_z3(s.H(u)["_queries_enabled"]) == to_z3(old["_queries_enabled"]), s.ghost["lock_depth"] == 0),
+                           kind="raise", replay="C15.failed_query")
+                continue
             if kind != "return":
                 eng.oblige(f"no-exception:{getattr(val, 'cls', kind)}", s, False, kind="raise")
                 continue
